@@ -87,6 +87,14 @@ class FaultServer:
                 for i in range(len(b)):
                     c.sendall(b[i : i + 1])
                     self._stop.wait(float(d) / max(1, len(b)))
+            elif kind == "redirect":
+                # rest = "loop" | "ok:<json>"; the Location always points back to this server
+                if rest == "loop" or not getattr(self, "_redirected", False):
+                    self._redirected = rest != "loop"
+                    c.sendall(f"HTTP/1.1 302 Found\r\nLocation: http://127.0.0.1:{self.port}/again\r\nContent-Length: 0\r\nConnection: close\r\n\r\n".encode())
+                else:
+                    self._redirected = False
+                    self._send_ok(c, rest.partition(":")[2])
             elif kind == "raw":
                 c.sendall(rest.encode())
         except Exception:
